@@ -149,6 +149,10 @@ class State:
         self.exc = None
         self.loops = ()
 
+    def add_cond(self, c):
+        c.at = len(self.events)      # number of events that happened before the condition was tested
+        self.conds.append(c)
+
     def fork(self):
         s = State()
         s.env = dict(self.env)
@@ -329,8 +333,8 @@ class SymExec:
         if isinstance(s, ast.If):
             t = subst(s.test, st.env)
             a, b = st, st.fork()
-            a.conds.append(Cond(t, True, 'if', s))
-            b.conds.append(Cond(t, False, 'if', s))
+            a.add_cond(Cond(t, True, 'if', s))
+            b.add_cond(Cond(t, False, 'if', s))
             return self.block(s.body, a) + self.block(s.orelse, b)
         if self.keep is not None and isinstance(s, (ast.While, ast.For, ast.Try)) and id(s) not in self.keep:
             assigned = _assigned_names([s])
@@ -351,7 +355,7 @@ class SymExec:
                 st.status = 'raise'
                 st.exc = ast.Name(id='AssertionError', ctx=ast.Load())
                 return [st]
-            st.conds.append(Cond(subst(s.test, st.env), True, 'assert', s))
+            st.add_cond(Cond(subst(s.test, st.env), True, 'assert', s))
             return [st]
         if isinstance(s, ast.Try):
             out = []
@@ -365,7 +369,7 @@ class SymExec:
             for h in s.handlers:
                 x = st.fork()
                 self.havoc(x, assigned, s, {n: st.env.get(n) for n in assigned}, 'except')
-                x.conds.append(Cond(subst(h.type, st.env) if h.type is not None else ast.Constant(value=True),
+                x.add_cond(Cond(subst(h.type, st.env) if h.type is not None else ast.Constant(value=True),
                                     True, 'except', h))
                 if h.name:
                     x.env[h.name] = self.fresh(h.name, 'exc', node=h)
@@ -417,7 +421,7 @@ class SymExec:
         # zero iterations (or: any number of iterations whose events are not tracked)
         skip = st.fork()
         if isinstance(s, ast.While):
-            skip.conds.append(Cond(subst(s.test, st.env), False, 'while-exit', s))
+            skip.add_cond(Cond(subst(s.test, st.env), False, 'while-exit', s))
         self.havoc(skip, assigned, s, pre, 'exit')
         out.extend(self.block(s.orelse, skip))
         # one generic iteration
@@ -425,7 +429,7 @@ class SymExec:
         self.havoc(it, assigned, s, pre, 'head')
         it.loops = it.loops + (s,)
         if isinstance(s, ast.While):
-            it.conds.append(Cond(subst(s.test, it.env), True, 'while', s))
+            it.add_cond(Cond(subst(s.test, it.env), True, 'while', s))
         else:
             src = subst(s.iter, st.env)
             self._bind_iter(s.target, src, it, s, ())
